@@ -168,21 +168,10 @@ Stuck ==
               \o ", reported " \o ToString(rep) \o ", write_all pending " \o ToString(wpend) \o ")")
     /\ LoadNext
 
-(* lines that are not runs: context lines; table replacements are checked   *)
-(* against the in-memory oracle (C08)                                       *)
-TableOK(e) ==
-    LET c == Rec[e.c].ctx IN
-    /\ e.end = "ok"
-    /\ e.res = ReplaceOracle(c.pats, "std", e.stream, c.ci, e.R, 0, FALSE)
+(* lines that are not runs: context lines and whole-output records (the latter are *)
+(* checked by TraceStreamContract)                                                *)
 Skip ==
     /\ pc = "skip" /\ t <= Len(Rec)
-    /\ IF E.ev = "stream_table"
-       THEN (IF TableOK(E) THEN TRUE
-             ELSE Reject("stream replace_all output differs from in-memory replace_all"))
-       ELSE IF E.ev = "stream_mem"     \* long streams: the two real outputs are compared (C08)
-       THEN (IF E.end = "ok" /\ E.res = E.mem THEN TRUE
-             ELSE Reject("stream replace_all output differs from the in-memory replace_all output"))
-       ELSE TRUE
     /\ LoadNext
 
 TNext == Step \/ Finish \/ Stuck \/ Skip
